@@ -42,55 +42,55 @@ type FuncGen struct {
 	fn  *ssa.Function
 	ct  *Contract
 
-	vals         map[ssa.Value]Val
-	asserts      []string
-	obls         []*Obligation
-	comps        map[string]*Comp
-	ghostSort    map[string]string
-	ghostInits   map[string]string
-	epochs       int
-	entry        *State
-	paramVals    map[string]Val
-	cur          *State
-	reach        string
-	block        *ssa.BasicBlock
-	tainted      string
-	ordinals     map[string]int
-	notes        []string // assumptions / abstractions made while generating
-	noteSeen     map[string]bool
-	props        []string // default property tags
-	loops        map[*ssa.BasicBlock]*loopInfo
-	iterCells    map[*ssa.Range]string // Range instr -> ghost cell name
-	retResults   []Val
-	lastPos      token.Pos
-	callCount    map[string]int
-	nilChecked   map[string]bool
-	constLen     map[string]int // slice term -> syntactically known length
-	blockOrder   map[*ssa.BasicBlock]int
-	invAssumed   map[string]bool
-	invTouched   map[string]touched
-	returns      []retEdge
-	fspec        *frameSpec
-	pendingTrace *traceRec
-	pendingFnVal string
+	vals          map[ssa.Value]Val
+	asserts       []string
+	obls          []*Obligation
+	comps         map[string]*Comp
+	ghostSort     map[string]string
+	ghostInits    map[string]string
+	epochs        int
+	entry         *State
+	paramVals     map[string]Val
+	cur           *State
+	reach         string
+	block         *ssa.BasicBlock
+	tainted       string
+	ordinals      map[string]int
+	notes         []string // assumptions / abstractions made while generating
+	noteSeen      map[string]bool
+	props         []string // default property tags
+	loops         map[*ssa.BasicBlock]*loopInfo
+	iterCells     map[*ssa.Range]string // Range instr -> ghost cell name
+	retResults    []Val
+	lastPos       token.Pos
+	callCount     map[string]int
+	nilChecked    map[string]bool
+	constLen      map[string]int // slice term -> syntactically known length
+	blockOrder    map[*ssa.BasicBlock]int
+	invAssumed    map[string]bool
+	invTouched    map[string]touched
+	returns       []retEdge
+	fspec         *frameSpec
+	pendingTrace  *traceRec
+	pendingFnVal  string
 	noSafetyNoted bool
-	globalAddrs  []string
-	inlineDepth  int
-	inlineSeq    int
-	closures     map[ssa.Value]*ssa.MakeClosure
-	lastAssert   map[string]int
-	ownAllocs    []ownAlloc
-	known        map[string]touched
-	depsCache    map[string][]string
-	recording    map[string]bool
-	boundary     *State
-	muted        bool
-	ownMods      map[string][]string // component -> references this function stored to itself ("*" = unknown)
-	storeRefHint string
-	inCallHavoc  bool
-	inInv        bool
-	dirty        map[string]bool
-	callEpoch    int
+	globalAddrs   []string
+	inlineDepth   int
+	inlineSeq     int
+	closures      map[ssa.Value]*ssa.MakeClosure
+	lastAssert    map[string]int
+	ownAllocs     []ownAlloc
+	known         map[string]touched
+	depsCache     map[string][]string
+	recording     map[string]bool
+	boundary      *State
+	muted         bool
+	ownMods       map[string][]string // component -> references this function stored to itself ("*" = unknown)
+	storeRefHint  string
+	inCallHavoc   bool
+	inInv         bool
+	dirty         map[string]bool
+	callEpoch     int
 }
 
 type touched struct {
